@@ -377,6 +377,9 @@ class Gen:
                             dr = self.pick(['', ' ASC', ' DESC'])
                             if dr.strip() == 'DESC':
                                 self.tags.add('window:desc')
+                            if cfg.nulls_order and self.chance(1, 3):
+                                dr += self.pick([' NULLS FIRST', ' NULLS LAST'])
+                                self.tags.add('window:nulls')
                             targets.append(f'rank() OVER (ORDER BY {ic}{dr})')
                         else:
                             # running sum over peers: deterministic under ties (RANGE frame is the default)
